@@ -128,7 +128,7 @@ def replay_phonon(chk, rng, kw, keys, name):
         chk.violation("phonon:raises", "real pipeline raises %s: %s on re-presented data (%s)" % (type(e).__name__, str(e)[:120], name), {})
         return
     for k in keys:
-        sc = numpy.abs(a[k]).max() + 1e-300
+        sc = max(numpy.abs(a[k]).max(), 1e-6 * max(numpy.abs(v).max() for v in a.values())) + 1e-300
         if numpy.abs(a[k][1:] - b[k][1:]).max() > 1e-9 * sc or numpy.abs(a2[k][1:] - b2[k][1:]).max() > 1e-9 * sc:
             chk.violation("phonon:presentation:%s" % name.split()[0], "%s changes %s by %.3g relative" % (
                 name, k, numpy.abs(a[k][1:] - b[k][1:]).max() / sc), dict(variant=name, key=k))
